@@ -327,6 +327,33 @@ func runCase(cs Case32) (rec Rec) {
 		return rec
 	}
 	fired, rtype := false, 0
+	if cs.Kind == "exthello" {
+		// the client is configured with an externally supplied ClientHello (Config.ExternalClientHello):
+		// a genuine hello of this configuration without the supported_versions extension, as an
+		// older stack or a recorded fingerprint would have it; the peer is an honest server
+		var first []byte
+		tlsh.Run(b.Client, b.Server, tlsh.RunOpt{NoData: true, Filter: func(dir, idx int, rec []byte) *tlsh.Action {
+			if dir == tlsh.C2S && idx == 0 {
+				first = append([]byte(nil), rec...)
+			}
+			return nil
+		}})
+		down := cs.Vers
+		if down > 12 {
+			down = 12
+		}
+		old, err := tlsh.RewriteClientHelloDowngrade(first, down)
+		if err != nil {
+			obs.Fatal("case %d: %v", cs.ID, err)
+		}
+		b = build(cs)
+		b.Client.ExternalClientHello = old[5:]
+		if cs.Sub == "no-cache" {
+			b.Client.ClientSessionCache = nil
+		}
+		cs.Kind, cs.Idx = "split", 1 << 20 // no transport fault
+		fired = true
+	}
 	r := tlsh.Run(b.Client, b.Server, tlsh.RunOpt{Filter: fault(cs, &fired, &rtype), KeepOpen: true})
 	rec.Obs = tlsh.Observe(r)
 	rec.Fired, rec.RType = fired, rtype
